@@ -85,7 +85,8 @@ ASSUMPTIONS = ['the `success` flag of a received event is forced to True by Prot
 PROBES = ['call:c2s', 'call:s2c', 'call:concurrent', 'call:big', 'completed', 'fault:short_read', 'cut:in-delimiter', 'cut:tiny', 'cut:uniform',
           'cut:in-multibyte', 'packet:split', 'fw:send-blocked', 'fw:recv-blocked', 'topo:B1', 'topo:B2', 'topo:BC', 'hostile:valid', 'hostile:mutated',
           'hostile:bytes', 'hostile:meta', 'hostile:value', 'hostile:oversized', 'fault:peer_abort', 'hostile:probe-call', 'behav:raise', 'behav:gen',
-          'mode:fire', 'mode:call', 'junk-dispatch']
+          'mode:fire', 'mode:call', 'mode:fwd', 'junk-dispatch', 'note:send', 'note:send_to', 'note:send_all', 'no-result-event-in-flight-with-call',
+          'callee:plain', 'callee:meta', 'callee:error', 'callee:wrong-id', 'callee:duplicate', 'callee:pieces', 'hostile-result-meta', 'call:to-raw-peer']
 TIERS = {
     'quick': dict(runs=24000, wall=30, chunk=50, cfg=dict(max_calls=6, max_ops=26, big=[3000, 4096, 5000, 9000], max_hostile=5, junk=[5000, 20000])),
     'thorough': dict(runs=400000, wall=600, chunk=200, cfg=dict(max_calls=12, max_ops=60, big=[3000, 4090, 4096, 5000, 9000, 20000, 70000],
@@ -116,6 +117,12 @@ CAUSE_META = ['cause', 'effects', 'complete_channels']
 FREE_META = ['remote_finish', 'errors', 'task', 'lock', 'time_left', 'x', '_private', 'node_protocol']
 # meta keys whose value must never show up on the dispatched event (the others in PROTECTED_META are legitimately set by Protocol / dispatcher)
 CHECKED_META = ['stopped', 'cancelled', 'alert_done', 'waitingHandlers', 'failed', 'parent', 'uid', 'notify', 'failure', 'node_without_result'] + CAUSE_META
+# attributes of the local event that waits for a result: a result packet must not change them (`value` is checked separately: it must stay
+# a Value).  For an event that is forwarded while it is being dispatched locally the dispatcher's own bookkeeping attributes are left out.
+WATCH_FWD = ['name', 'args', 'kwargs', 'channels', 'stopped', 'cancelled', 'complete', 'success', 'failure', 'notify', 'parent', 'success_channels',
+             'complete_channels', 'cause', 'effects']
+WATCH = WATCH_FWD + ['alert_done', 'waitingHandlers', 'failed', 'handler']
+ABSENT = '<absent>'
 META_VALS = [True, False, 0, 1, -1, 'x', '', [], {}, None, ['node_result'], 'node', 5.5, [[1]]]
 
 
@@ -285,6 +292,9 @@ class Sim:
         self.junk_dispatch = 0
         self.hp = None
         self.hconn = None
+        self.notes = []             # fire-and-forget events (Server.send(no_result=True) / send_to / send_all)
+        self.rawproc = Proc('R')    # stands for the raw peer where it is the callee of a server -> client call
+        self.callee_on = False
 
     # ------------------------------------------------------------------ reporting
     def fail(self, key, detail):
@@ -334,6 +344,27 @@ class Sim:
                 c = sim.calls[cid]
                 return p.node.server.send(c.event, c.conn.ssock)
 
+            @handler('note')
+            def note(self, nid):
+                # fire-and-forget events through the three public ways of node.Server; like an application, only to sockets still listed
+                n = sim.notes[nid]
+                srv = p.node.server
+                known = srv.get_socks()
+                if n.api == 'send_all':
+                    n.targets = [cn for cn in p.conns if cn.ssock in known]
+                else:
+                    n.targets = [cn for cn in n.targets if cn.ssock in known]
+                sim.ctx.trace('    [%s] %s of %s to connection(s) %r' % (p.tag, n.api, n.tok, [cn.k for cn in n.targets]))
+                n.sent = True
+                if not n.targets:
+                    return
+                if n.api == 'send':
+                    srv.send(n.event, n.targets[0].ssock, no_result=True)
+                elif n.api == 'send_to':
+                    srv.send_to(n.event, [cn.ssock for cn in n.targets])
+                else:
+                    srv.send_all(n.event)
+
             @handler('remote_success', 'push_success')
             def outer_done(self, e, value):
                 cid = getattr(e, 'sim_cid', None)
@@ -349,8 +380,33 @@ class Sim:
                 sim.ctx.stat('handler-exception')
                 sim.ctx.trace('    [%s] exception event: %s in %s' % (p.tag, repr(evalue)[:100], getattr(fevent, 'name', '?')))
 
+        class Fwd(Component):
+            """server process only: forwards the event it is handling to a peer and waits for the result (what Node.add(auto_remote_event=...)
+            does on the client side, here through Server.send)"""
+            channel = 'app'
+
+            @handler('job')
+            def job(self, event, *args, **kwargs):
+                c = sim.by_tok[args[0]]
+                r = yield self.call(Event.create('push', c.cid), 'app')
+                sim.completed(c, r)
+
+            @handler('job_success')
+            def job_success(self, e, value):
+                c = sim.by_tok.get(e.args[0] if e.args else None)
+                if c is not None and e is c.event:
+                    c.local_success += 1
+
+        class JobExec(Component):
+            channel = 'app'
+
+            @handler('job')
+            def on_job(self, event, *args, **kwargs):
+                return sim.on_call(p, event, args, kwargs)
+
         p.app = App().register(p.m)
         Svc().register(p.m)
+        (Fwd if server else JobExec)().register(p.m)
         self.ticks(p, 3)
         return p
 
@@ -382,6 +438,8 @@ class Sim:
             hp.pump()
             if self.hp_reads:
                 hp.recv()
+                if self.callee_on:
+                    self.raw_answer()
 
     def fair_round(self):
         self.round += 1
@@ -478,15 +536,24 @@ class Sim:
         # (a call whose connection died stays in the sender's table for ever)
         return [c for c in self.calls if c.done is None and c.blocked != 'send' and (conn is None or c.conn is conn) and (proc is None or c.src is proc)]
 
-    def issue(self, probe=False):
+    def snap(self, ev, fwd=False):
+        d = vars(ev)
+        return {k: (J(d[k]) if k in d else ABSENT) for k in (WATCH_FWD if fwd else WATCH)}
+
+    def issue(self, probe=False, conn=None, s2c=None):
         ch, ctx = self.ch, self.ctx
         live = [cn for cn in self.conns if cn.raw is None and not cn.dead]
         if not live:
             return None
-        conn = live[0] if probe else ch.choice(live, 'call-conn')
         A = self.procs['A']
-        s2c = (not probe) and self.s2c_on and ch.chance(1, 3, 's2c?')
-        src, dst = (A, conn.cproc) if s2c else (conn.cproc, A)
+        if conn is None:
+            conn = live[0] if probe else ch.choice(live, 'call-conn')
+        if s2c is None:
+            s2c = (not probe) and self.s2c_on and ch.chance(1, 3, 's2c?')
+            if s2c and self.callee_on and self.hconn is not None and not self.hconn.dead and not self.hp.closed and ch.chance(1, 2, 'to-raw?'):
+                conn = self.hconn            # the raw peer is the callee
+        to_raw = conn.raw is not None
+        src, dst = (A, self.rawproc if to_raw else conn.cproc) if s2c else (conn.cproc, A)
         if K_SHARED in ctx.avoid and not probe:
             # two Protocols of one process must not have calls with equal ids in flight (ids restart at 0 per connection)
             if any(c.conn is not conn for c in self.in_flight(proc=src)):
@@ -497,7 +564,8 @@ class Sim:
         c.conn, c.src, c.dst, c.dirn = conn, src, dst, 's2c' if s2c else 'c2s'
         c.feats = set()
         c.probe = probe
-        c.name = 'alpha' if probe else ch.choice(NAMES, 'name')
+        c.mode = 'call' if probe else ch.choice(['call', 'fire', 'fwd'] if s2c else ['call', 'fire'], 'mode')
+        c.name = 'alpha' if probe else ('job' if c.mode == 'fwd' else ch.choice(NAMES, 'name'))
         allow_big = not probe and self.big_on
         c.args = [c.tok] + ([] if probe else [self.gen_value(allow_big, c.feats, 'call') for _ in range(ch.weighted([3, 3, 1], 'nargs'))])
         c.kwargs = {}
@@ -513,21 +581,23 @@ class Sim:
             c.result = 'pong' if probe else self.gen_value(allow_big, c.feats, 'result')
             if c.result is None:
                 c.behav = 'none'
+        c.plan = None
+        if to_raw:
+            c.behav, c.result, c.plan = 'raw', None, self.callee_plan(c)
         c.failure = (not probe) and ch.chance(1, 4, 'failure-flag')
         c.notify = (not probe) and ch.chance(1, 5, 'notify-flag')
-        c.success = (not probe) and ch.chance(1, 4, 'success-flag')
-        c.mode = 'call' if probe else ch.choice(['call', 'fire'], 'mode')
+        c.success = c.mode == 'fwd' or ((not probe) and ch.chance(1, 4, 'success-flag'))
         c.size = len(J(c.args)) + len(J(c.kwargs)) + 190
         c.rsize = len(J(c.result)) + 60
         if self.align and max(c.size, c.rsize) > 3600:
             return None
         c.event = Event.create(c.name, *c.args, **c.kwargs)
         c.event.failure, c.event.notify, c.event.success = c.failure, c.notify, c.success
-        if not probe and ch.chance(1, 6, 'custom-meta'):
+        if not probe and c.mode != 'fwd' and ch.chance(1, 6, 'custom-meta'):
             c.event.trace_meta = 'm%d' % c.cid            # an application attribute: travels as meta
         if s2c:
             # ('app', 'void'): nobody listens on the second channel (a handler on both would legitimately run twice)
-            c.chans = ('app', 'void') if ch.chance(1, 5, 'two-channels') else ('app',)
+            c.chans = ('app', 'void') if (c.mode != 'fwd' and ch.chance(1, 5, 'two-channels')) else ('app',)
             c.event.channels = c.chans
             c.fire_chans = ('app',)
             c.outer = Event.create('push', c.cid)
@@ -543,7 +613,7 @@ class Sim:
             c.blocked = 'send'
         elif c.name in blocked.get((dst.tag, 'recv'), ()):
             c.blocked = 'recv'
-        c.runs, c.done, c.fv, c.void = [], None, None, False
+        c.runs, c.done, c.fv, c.void, c.local_success, c.answered = [], None, None, False, 0, None
         c.concurrent = len(self.in_flight(conn=conn))
         c.issued_round = self.round
         self.calls.append(c)
@@ -560,18 +630,156 @@ class Sim:
             ctx.stat('fw:%s-blocked' % c.blocked)
         if probe:
             ctx.stat('hostile:probe-call')
-        ctx.state((self.topo, min(c.concurrent, 3), min(max(c.size, c.rsize) // 2048, 4), c.dirn, c.blocked or '-'))
+        if to_raw:
+            ctx.stat('call:to-raw-peer')
+        if s2c and not c.blocked and any(conn in n.targets and not n.blocked and not self.note_satisfied(n) for n in self.notes):
+            # a fire-and-forget event and an awaited call are under way on the same connection
+            ctx.stat('no-result-event-in-flight-with-call')
+        ctx.state((self.topo, min(c.concurrent, 3), min(max(c.size, c.rsize) // 2048, 4), c.dirn, c.blocked or '-', c.mode, to_raw))
         ctx.log('call', c.cid, c.dirn, conn.k, c.name, c.size, c.rsize, c.behav, c.mode, c.failure, c.notify, c.blocked or '-', short(c.args[1:]), short(c.kwargs))
-        ctx.trace('%s %s: process %s -> %s over connection %d: %s(%s, %s) channels=%r flags(s/f/n)=%d%d%d handler will %s%s%s' % (
-            'PROBE call' if probe else 'call', c.tok, src.tag, dst.tag, conn.k, c.name, short(c.args), short(c.kwargs), c.chans, c.success, c.failure,
-            c.notify, c.behav, '' if c.behav in ('none', 'raise') else ' ' + short(c.result), ' [blocked by %s firewall]' % c.blocked if c.blocked else ''))
+        ctx.trace('%s %s: process %s -> %s over connection %d (%s): %s(%s, %s) channels=%r flags(s/f/n)=%d%d%d %s%s' % (
+            'PROBE call' if probe else 'call', c.tok, src.tag, 'raw peer' if to_raw else dst.tag, conn.k, c.mode, c.name, short(c.args), short(c.kwargs), c.chans,
+            c.success, c.failure, c.notify,
+            'raw peer will answer: %s' % self.plan_text(c.plan) if to_raw else
+            'handler will %s%s' % (c.behav, '' if c.behav in ('none', 'raise') else ' ' + short(c.result)),
+            ' [blocked by %s firewall]' % c.blocked if c.blocked else ''))
+        # "the event attributes the dispatcher relies on": what the local event looks like before any peer had a say
+        c.before = self.snap(c.event, fwd=c.mode == 'fwd')
         enter(src)
         if c.mode == 'call':
             src.app.fire(Event.create('go', c.cid), 'app')
+        elif c.mode == 'fwd':
+            src.app.fire(c.event, 'app')        # dispatched locally; its handler forwards it (Fwd.job)
         else:
             c.outer.success = True
             c.fv = src.app.fire(c.outer, *c.fire_chans)
         return c
+
+    # ---- fire-and-forget events
+    def note_needed(self, n):
+        need = {}
+        for cn in n.targets:
+            if cn.raw is None and not cn.dead:
+                need[cn.cproc.tag] = need.get(cn.cproc.tag, 0) + 1
+        return need
+
+    def note_satisfied(self, n):
+        if n.blocked:
+            return True
+        if not n.sent:
+            return False
+        return all(n.runs.count(tag) >= k for tag, k in self.note_needed(n).items())
+
+    def issue_note(self, conn=None):
+        """Server.send(event, sock, no_result=True) / send_to(event, socks) / send_all(event): "an event sent to a peer node is executed exactly
+        once on the peer"; nobody waits for a result (the peer answers all the same, which must not disturb the awaited calls)."""
+        ch, ctx = self.ch, self.ctx
+        A = self.procs['A']
+        live = [cn for cn in self.conns if not cn.dead and (cn.raw is None or (self.callee_on and not self.hp.closed))]
+        if not [cn for cn in live if cn.raw is None]:
+            return None
+        n = Call()
+        n.cid = len(self.notes)
+        n.tok = 'n%d#' % n.cid
+        n.api = 'send' if conn is not None else ch.choice(['send', 'send', 'send_to', 'send_all'], 'note-api')
+        if conn is not None:
+            n.targets = [conn]
+        elif n.api == 'send':
+            n.targets = [ch.choice(live, 'note-conn')]
+        elif n.api == 'send_to':
+            n.targets = ch.subset(live, 'note-conns') or [live[0]]
+        else:
+            n.targets = list(live)                # (recomputed from Server.get_socks() when the handler runs)
+        n.mode, n.dirn, n.src, n.dst, n.conn, n.probe, n.plan = 'note', 's2c', A, None, n.targets[0], False, None
+        n.feats = set()
+        n.name = ch.choice(NAMES, 'note-name')
+        n.args = [n.tok] + [self.gen_value(False, n.feats, 'call') for _ in range(ch.weighted([3, 2], 'note-nargs'))]
+        n.kwargs = {}
+        if ch.chance(1, 3, 'note-kw'):
+            n.kwargs[ch.choice(KW_KEYS, 'note-kw-key')] = self.gen_value(False, n.feats, 'call')
+        n.behav = ['ret', 'none', 'gen', 'raise'][ch.weighted([5, 2, 2, 2 if self.allow_raise else 0], 'note-behav')]
+        n.result = ['note-result', n.tok]        # never equal to the result of an awaited call
+        n.failure, n.notify, n.success = ch.chance(1, 4, 'failure-flag'), ch.chance(1, 5, 'notify-flag'), ch.chance(1, 4, 'success-flag')
+        n.chans = ('app',)
+        n.event = Event.create(n.name, *n.args, **n.kwargs)
+        n.event.failure, n.event.notify, n.event.success, n.event.channels = n.failure, n.notify, n.success, n.chans
+        n.size = len(J(n.args)) + len(J(n.kwargs)) + 190
+        n.rsize = 100
+        n.blocked = None
+        if n.name in self.blocked_names.get(('A', 'send'), ()):
+            n.blocked = 'send'
+        elif n.name in self.blocked_names.get(('B', 'recv'), ()):      # (B and C use the same predicate)
+            n.blocked = 'recv'
+        n.runs, n.sent, n.void, n.done = [], False, False, None
+        self.notes.append(n)
+        self.by_tok[n.tok] = n
+        ctx.stat('note:' + n.api)
+        ctx.log('note', n.cid, n.api, [cn.k for cn in n.targets], n.name, n.behav, n.blocked or '-', short(n.args[1:]), short(n.kwargs))
+        ctx.trace('no-result event %s: process A %s -> connection(s) %r: %s(%s, %s) handler will %s%s' % (
+            n.tok, n.api, [cn.k for cn in n.targets], n.name, short(n.args), short(n.kwargs), n.behav, ' [blocked by %s firewall]' % n.blocked if n.blocked else ''))
+        enter(A)
+        A.app.fire(Event.create('note', n.cid), 'app')
+        return n
+
+    # ---- the raw peer as callee
+    def callee_plan(self, c):
+        ch = self.ch
+        kind = ['plain', 'meta', 'error', 'wrong-id', 'duplicate', 'never'][ch.weighted([3, 6, 1, 2, 2, 1], 'callee-kind')]
+        plan = dict(kind=kind, value=['raw-result', c.tok] if ch.chance(1, 2, 'callee-val') else ch.choice(ATOMS[:10], 'callee-atom'), meta={},
+                    pieces=ch.chance(1, 3, 'callee-pieces'))
+        if plan['value'] is None:
+            plan['value'] = 'r'
+        if kind == 'meta':
+            pool = PROTECTED_META * 2 + CAUSE_META + FREE_META
+            for _ in range(ch.randint(1, 4, 'callee-n-meta')):
+                k = ch.choice(pool, 'meta-key')
+                plan['meta'][k] = 'forged' if (k == 'value' and ch.chance(1, 2, 'forged')) else ch.choice(META_VALS, 'meta-val')
+        elif kind == 'wrong-id':
+            plan['wrong'] = ch.choice(['+1000', 'list', 'str', 'null', '-1'], 'callee-wrong')
+        return plan
+
+    def plan_text(self, plan):
+        return '%s value=%s%s%s' % (plan['kind'], short(plan['value']), ' meta=%s' % short(plan['meta'], 90) if plan['meta'] else '', ' in pieces' if plan['pieces'] else '')
+
+    def raw_answer(self):
+        """The raw peer reads the call packets the server sent it and answers the awaited ones with result packets from the grammar."""
+        hp = self.hp
+        done = getattr(hp, 'parsed', 0)
+        for s, e, obj, complete in packets_of(bytes(hp.inp[done:])):
+            if not complete:
+                break
+            hp.parsed = done + e
+            if not is_call(obj) or not isinstance(obj.get('args'), list) or not obj['args'] or self.failed:
+                continue
+            c = self.by_tok.get(obj['args'][0] if isinstance(obj['args'][0], str) else None)
+            if c is None or c.mode == 'note' or c.dst is not self.rawproc or c.answered is not None:
+                continue
+            plan, wid = c.plan, obj.get('id')
+            c.answered, c.wire_id = self.round, wid
+            if plan['kind'] == 'never':
+                self.ctx.trace('raw peer received %s (id %s) and does not answer' % (c.tok, wid))
+                continue
+            good = {'id': wid, 'errors': plan['kind'] == 'error', 'value': plan['value'], 'meta': plan['meta']}
+            packets = [good]
+            if plan['kind'] == 'wrong-id':
+                w = plan['wrong']
+                bad_id = {'+1000': (wid + 1000 if isinstance(wid, int) else 1000), 'list': [wid], 'str': str(wid), 'null': None, '-1': -1}[w]
+                packets = [dict(good, id=bad_id, value='WRONG-ID'), good]
+            elif plan['kind'] == 'duplicate':
+                packets = [good, dict(good, value='DUPLICATE')]
+            data = b''.join(json.dumps(d).encode() + DELIMITER for d in packets)
+            self.hostile_sent += 1
+            self.ctx.stat('callee:' + plan['kind'])
+            if plan['meta']:
+                self.ctx.stat('hostile-result-meta')
+            if plan['pieces']:
+                self.ctx.stat('callee:pieces')
+            self.ctx.state(('callee', plan['kind'], plan['pieces'], tuple(sorted(plan['meta']))[:3]))
+            self.ctx.log('callee', c.cid, plan['kind'], short(plan['meta'], 100), plan['pieces'])
+            self.ctx.trace('raw peer answers %s (id %s): %s' % (c.tok, wid, ' + '.join(short(d, 200) for d in packets)))
+            if not hp.clean:
+                self.h_send(b'x' + DELIMITER)
+            self.h_send(data, plan['pieces'])
 
     # ------------------------------------------------------------------ observation points
     def attr_problem(self, event, c):
@@ -615,9 +823,13 @@ class Sim:
         if c.blocked:
             which = 'send' if c.blocked == 'send' else 'receive'
             self.fail('C19/firewall/%s/dispatched' % which, '%s was rejected by the %s firewall but its handler ran in process %s' % (tok, which, p.tag))
-        elif len(c.runs) > 1:
+        elif c.mode == 'note' and c.runs.count(p.tag) > len([cn for cn in c.targets if cn.cproc is p]):
+            # one execution per connection the event was sent on
+            self.fail('C19/exactly-once/no-result-event-ran-twice' if any(cn.cproc is p for cn in c.targets) else 'C19/exactly-once/ran-in-wrong-process',
+                      'no-result event %s (%s to connections %r) ran %d times in process %s' % (tok, c.api, [cn.k for cn in c.targets], c.runs.count(p.tag), p.tag))
+        elif c.mode != 'note' and len(c.runs) > 1:
             self.fail('C19/exactly-once/ran-twice', 'handler of %s ran %d times (%r)' % (tok, len(c.runs), c.runs))
-        elif p is not c.dst:
+        elif c.mode != 'note' and p is not c.dst:
             self.fail('C19/exactly-once/ran-in-wrong-process', '%s was sent to process %s but ran in %s' % (tok, c.dst.tag, p.tag))
         else:
             # "event/value serialisation preserves name, arguments, keyword arguments, channels and feedback flags"
@@ -664,7 +876,8 @@ class Sim:
             self.ctx.trace('    (raw peer sent it in two pieces: %d + %d bytes)' % (k, len(data) - k))
         else:
             hp.send(data)
-        hp.clean = bytes(hp.sent[-3:]) == DELIMITER and not hp.out
+        # cleanly framed = ends with a delimiter that is not preceded by a further tilde (which would shift the split)
+        hp.clean = bytes(hp.sent[-3:]) == DELIMITER and bytes(hp.sent[-4:-3]) != b'~' and not hp.out
 
     def h_valid_packet(self, extra_meta=None, big=0):
         ch = self.ch
@@ -725,7 +938,7 @@ class Sim:
             raw_utf8 = ch.chance(1, 3, 'raw-utf8')
             big = ch.choice(self.cfg['big'], 'h-big') if (self.big_on and ch.chance(1, 8, 'h-big?')) else 0
             if not hp.clean:
-                self.h_send(DELIMITER)            # resynchronise after junk without delimiter
+                self.h_send(b'x' + DELIMITER)     # resynchronise after junk without delimiter (a filler: stray tildes must not eat the delimiter)
             d, tok, feats = self.h_valid_packet(meta, big)
             valuekey_meta = 'value' in meta
             # payloads with the delimiter or a "value" key are judged on node-to-node calls only
@@ -771,7 +984,7 @@ class Sim:
             elif mut == 3:
                 del d[ch.choice(['id', 'errors', 'meta'], 'v-del')]
             if not hp.clean:
-                self.h_send(DELIMITER)
+                self.h_send(b'x' + DELIMITER)
             self.raw_value_ids.append(J(d.get('id')))
             ctx.stat('hostile:value')
             ctx.state(('hostile', 'value', mut))
@@ -865,6 +1078,9 @@ class Sim:
             if not c.runs:
                 c.owed = False
             c.answer_owed = False
+        for c in self.calls:
+            if c.dst is self.rawproc and c.done is None:
+                c.void = True
 
     def kill_proc(self, p):
         """peer abort of a whole client process: its sockets vanish (reset if data is unread), it is never ticked again."""
@@ -923,6 +1139,11 @@ class Sim:
             except (ValueError, KeyError, TypeError):
                 m = re.match(rb'\{"id": (\d+), "name"', tx[loc[0]:loc[0] + 40])       # packet not complete / not parsable: read the id off its head
                 wire_id = int(m.group(1)) if m else None
+        if wire_id is not None and clause != 'never-ran':
+            same = [o for _, _, o, _ in packets_of(tx) if is_call(o) and J(o.get('id')) == J(wire_id)]
+            if len(same) > 1:
+                return 'C19/result/call-id-reused-on-connection', 'ids must tell the calls of a connection apart, but %d call packets on connection %d carry id %s (%s)' % (
+                    len(same), c.conn.k, wire_id, ', '.join(str((o.get('args') or ['?'])[0]) for o in same[:3]))
         # (each guess needs its evidence on the wire, so that another defect is not filed under a known key)
         if 'delim:call' in feats and loc is not None and tx[loc[1] - len(DELIMITER):loc[1]] == DELIMITER and packets_of(tx[loc[0]:loc[1]])[0][2] is None:
             return K_DELIM, 'its payload contains the packet delimiter ~~~, which cuts the call packet in two'
@@ -1003,6 +1224,8 @@ class Sim:
             return None
         if c.blocked:
             return None     # receive firewall: "never dispatched" is checked online in on_call
+        if c.dst is self.rawproc:
+            return self.judge_callee(c)
         if not c.runs:
             key, why = self.diagnose(c, 'never-ran')
             return self.fail(key or ('C19/hostile/valid-call-not-executed' if c.dirn == 'raw' else 'C19/exactly-once/never-ran'),
@@ -1024,6 +1247,59 @@ class Sim:
         if val != J(c.result):
             key, why = self.diagnose(c, 'wrong-value')
             return self.fail(key or 'C19/result/wrong-value', '%s: handler returned %s but the sender obtained %s%s' % (tag, short(c.result, 120), val[:160], '; ' + why if why else ''))
+        return self.judge_waiting_event(c)
+
+    def judge_waiting_event(self, c):
+        """"nothing a peer sends can ... overwrite the event attributes the dispatcher relies on": the local event that waited for the result
+        looks as it did before it was sent (c2s: Node itself sets its channels), its value is still a Value, and an event that was forwarded
+        while being handled locally has completed normally (its <name>_success fired once)."""
+        ev = c.event
+        now = self.snap(ev, fwd=c.mode == 'fwd')
+        for k, was in c.before.items():
+            if now[k] != was and not (k == 'channels' and c.dirn == 'c2s'):
+                return self.fail('C19/hostile/waiting-event-attribute-overwritten/%s' % ('cause-effects' if k in CAUSE_META else k),
+                                 '%s: attribute %s of the local event that waited for the result was %s before the call and is %s after the answer of %s'
+                                 % (c.tok, k, was[:80], now[k][:80], 'the raw peer' if c.dst is self.rawproc else 'process ' + c.dst.tag))
+        if c.done is not None and not isinstance(getattr(ev, 'value', None), Value):
+            return self.fail('C19/hostile/waiting-event-attribute-overwritten/value', '%s: event.value of the waiting event is %r, not a Value' % (c.tok, type(ev.value).__name__))
+        if c.mode == 'fwd' and c.done is not None and c.local_success != 1:
+            return self.fail('C19/hostile/forwarded-event-not-completed', '%s: the forwarding handler was resumed but %s_success of the locally dispatched event fired %d times'
+                             % (c.tok, c.name, c.local_success))
+        return None
+
+    def judge_callee(self, c):
+        """a server -> client call whose callee is the raw peer: the waiting handler obtains the plain value of the result packet (or its error
+        flag); nothing in the packet's meta reaches the dispatcher attributes of the waiting event."""
+        plan = c.plan
+        if c.answered is None or plan['kind'] == 'never' or self.hp.closed:
+            return self.judge_waiting_event(c)
+        if c.done is None:
+            return self.fail('C19/hostile/call-answered-by-raw-peer-not-completed', '%s: the raw peer answered (%s) but the waiting handler (%s) was not resumed within the bound'
+                             % (c.tok, self.plan_text(plan), c.mode))
+        val, err, _ = c.done
+        if J(c.wire_id) in self.raw_value_ids:
+            pass        # the peer also sent a value packet of its own with this id: it answered twice, either value may arrive
+        elif plan['kind'] == 'error':
+            if not err:
+                return self.fail('C19/result/error-flag-lost', '%s: the raw peer answered with errors=true but the sender obtained %s without an error flag' % (c.tok, val[:100]))
+        elif plan['kind'] != 'duplicate' and val != J(plan['value']):
+            return self.fail('C19/hostile/result-value-forged', '%s: the result packet carried value %s (meta %s) but the waiting handler obtained %s'
+                             % (c.tok, short(plan['value'], 80), short(plan['meta'], 120), val[:120]))
+        return self.judge_waiting_event(c)
+
+    def judge_note(self, n):
+        if n.blocked == 'send':
+            for cn in self.conns:
+                if n.tok.encode() in self.tx_stream(cn, 's'):
+                    return self.fail('C19/firewall/send/transmitted', 'no-result event %s was rejected by the send firewall of process A but its packet is on the wire of connection %d'
+                                     % (n.tok, cn.k))
+            return None
+        if n.blocked or not n.sent:
+            return None
+        for tag, k in sorted(self.note_needed(n).items()):
+            if n.runs.count(tag) < k:
+                return self.fail('C19/exactly-once/no-result-event-never-ran', 'no-result event %s (%s to connections %r) ran %d time(s) in process %s, %d connection(s) to it carried it'
+                                 % (n.tok, n.api, [cn.k for cn in n.targets], n.runs.count(tag), tag, k))
         return None
 
     def judge_raw_answer(self, c):
@@ -1084,6 +1360,9 @@ class Sim:
         hostile = ch.chance(1, 2, 'hostile?')
         self.hp_reads = ch.chance(3, 4, 'raw-peer-reads')
         self.s2c_on = ch.chance(1, 2, 's2c-on')
+        self.callee_on = hostile and ch.chance(1, 2, 'raw-peer-is-callee')       # the raw peer also answers calls the server sends it
+        if self.callee_on:
+            self.s2c_on = self.hp_reads = True
         self.big_on = ch.chance(1, 2, 'big-on') and not self.align
         fault_cuts = ch.chance(2, 3, 'cuts-on') and not self.align
         self.cut_rate = ch.choice([2, 3, 6], 'cut-rate')
@@ -1150,6 +1429,7 @@ class Sim:
 
         # ---- main phase: the tape interleaves calls, ticks, hostile packets and aborts
         ncalls = ch.randint(1, cfg['max_calls'], 'n-calls')
+        nnotes = ch.randint(0, 3, 'n-notes') if self.s2c_on else 0
         nops = ch.randint(ncalls, cfg['max_ops'], 'n-ops')
         for _ in range(nops):
             if self.failed:
@@ -1157,7 +1437,8 @@ class Sim:
             live_raw = self.hp is not None and not self.hp.closed
             op = ch.weighted([5, 5 if ncalls > 0 else 0, 2, 4 if (live_raw and n_hostile > 0) else 0,
                               1 if (live_raw and self.hostile_sent and not hostile_first) else 0,
-                              1 if (self.topo == 'BC' and self.procs['C'].alive and self.calls) else 0], 'op')
+                              1 if (self.topo == 'BC' and self.procs['C'].alive and self.calls) else 0,
+                              3 if nnotes > 0 else 0, 3 if (nnotes > 0 and ncalls > 0) else 0], 'op')
             if op == 0:
                 p = ch.choice([q for q in self.procs.values() if q.alive], 'tick-who')
                 n = 1 + ch.draw(3, 'tick-n')
@@ -1175,8 +1456,20 @@ class Sim:
                 n_hostile -= 1
             elif op == 4:
                 self.abort_raw()
-            else:
+            elif op == 5:
                 self.kill_proc(self.procs['C'])
+            elif op == 6:
+                if self.issue_note() is not None:
+                    nnotes -= 1
+            else:
+                # a fire-and-forget event directly followed by an awaited call on the same connection, both under way together
+                live = [cn for cn in self.conns if cn.raw is None and not cn.dead]
+                if live:
+                    cn = ch.choice(live, 'burst-conn')
+                    self.issue_note(conn=cn)
+                    nnotes -= 1
+                    if self.issue(conn=cn, s2c=True) is not None:
+                        ncalls -= 1
         if self.failed:
             return
 
@@ -1200,7 +1493,13 @@ class Sim:
         for c in self.calls:
             if c.void or c.blocked or c.conn.dead:
                 continue
-            if c.done is None or not c.runs:          # (completed without having run: keep going, its packet may still be under way)
+            if c.dst is self.rawproc:
+                if c.done is None and c.plan['kind'] != 'never':
+                    n += 1
+            elif c.done is None or not c.runs:        # (completed without having run: keep going, its packet may still be under way)
+                n += 1
+        for x in self.notes:
+            if not self.note_satisfied(x):
                 n += 1
         if self.hp is not None and not self.hp.closed:
             for c in self.hcalls:
@@ -1213,8 +1512,11 @@ class Sim:
         for c in self.calls:
             # everything that may still be on its way (an event rejected by the receive firewall travels too, and `done` proves nothing
             # when results can be mixed up): counted until the handler is known to have run and the sender to have been resumed
-            if c.blocked != 'send' and (c.done is None or not c.runs):
+            if c.blocked != 'send' and (c.done is None or (not c.runs and c.dst is not self.rawproc)):
                 n += c.size + c.rsize
+        for x in self.notes:
+            if not self.note_satisfied(x):
+                n += (x.size + x.rsize) * max(1, len(x.targets))
         if self.hp is not None:
             n += len(self.hp.out) + sum(len(J(c.args)) for c in self.hcalls if not c.runs)
             if self.hconn is not None and self.hconn.ssock is not None:
@@ -1268,6 +1570,9 @@ class Sim:
             if c.void or c.conn.dead:
                 continue
             self.judge_call(c)
+        for n in self.notes:
+            if not self.failed:
+                self.judge_note(n)
         if self.hp is not None and not self.hp.closed:
             self.hp.recv()
             self.judge_raw_calls()
